@@ -19,7 +19,7 @@ import typing
 
 import z3
 
-from . import pysym
+from . import pysym, ref
 from .pysym import Bl, Call, Exc, Ite, LD, LL, Ob, Tm, _const_key, _short
 
 OPTS = ("omit_none", "omit_default", "serialize_by_alias")
@@ -226,7 +226,7 @@ class PackView:
 def pack_view(cls):
     import typing_extensions
 
-    hints = typing_extensions.get_type_hints(cls, include_extras=True)
+    hints = ref.resolved_hints(cls)
     cfg = getattr(cls, "Config", None)
     cfg_aliases = getattr(cfg, "aliases", {}) or {}
     out = []
@@ -378,7 +378,7 @@ def verify_to_dict(cls, fn_ast, namespace, p: PPoint, levels, passed, timeout_ms
     if getattr(p, "conforming_classes", False):
         import typing_extensions
 
-        hints = typing_extensions.get_type_hints(cls, include_extras=True)
+        hints = ref.resolved_hints(cls)
         for fv in view:
             ks = _member_classes(hints[fv.name])
             if ks:
